@@ -498,7 +498,27 @@ impl G2 {
             }
             32 => {
                 self.feat("bitstr-ops");
-                match rng.below(5) {
+                match rng.below(6) {
+                    5 if self.allow_cursor => {
+                        // a prefix of a freshly computed (uniquely owned) value whose parent is gone, then extended or
+                        // inverted: the in-place paths of the bit-string library
+                        let v = rng.next_u64() & 0xffff_ffff;
+                        let w = *rng.pick(&[16u32, 24, 32, 13, 21]);
+                        let n = 1 + rng.below(w as usize - 1);
+                        self.w(&format!("{} {} uint! open-bitstr {} bits close-bitstr", v & ((1u64 << w) - 1), w, n));
+                        self.st.push(T::B);
+                        self.feat("prefix-of-dropped-parent");
+                        match rng.below(3) {
+                            0 => {
+                                // (the value on top is the head of the result)
+                                self.bits_lit(rng);
+                                self.w(if rng.chance(3, 4) { "swap bitstr-append" } else { "bitstr-append" });
+                                self.st.pop();
+                            }
+                            1 => self.w("bitstr-not"),
+                            _ => self.w("dup bitstr-append"),
+                        }
+                    }
                     0 => self.apply(rng, "bitstr-append", &[T::B, T::B], &[T::B]),
                     1 => self.apply(rng, "bitstr-not", &[T::B], &[T::B]),
                     2 => {
